@@ -504,6 +504,11 @@ impl<'a> ObjVisitor for GenVisitor<'a> {
                         deliveries.push(d);
                     }
                 }
+                for _ in 0..3 {
+                    if let Some(d) = crate::psetgen::pset_resize_value(p, &reference) {
+                        deliveries.push(d);
+                    }
+                }
             }
         }
         let hard_w = |p: &mut Prng| match p.below(4) {
@@ -565,7 +570,13 @@ fn check_accepted<T: Encodable + Decodable + PartialEq + Debug>(ctx: &mut Ctx, t
     let prop = ty.prop();
     // the real API first: deserialize (must consume everything)
     let via_api = ctx.call(&format!("deserialize<{}>", tyname), b.len(), || encode::deserialize::<T>(b));
-    let Some(via_api) = via_api else { return };
+    let Some(via_api) = via_api else {
+        // the panic itself is reported under C10; a forbidden framing that makes the decoder panic was not "rejected"
+        if label.starts_with("byz.") {
+            ctx.violate(&format!("{}.reject.{}", prop, &label[4..]), &format!("{}|panic", tyname), format!("{}: the decoder panicked on a non-canonical re-encoding ({}) instead of rejecting it", tyname, label));
+        }
+        return;
+    };
     // the same bytes through the seam
     let via_seam = decode_via_seam::<T>(ctx, &format!("consensus_decode<{}>", tyname), b, plan);
     match &via_api {
@@ -844,6 +855,20 @@ impl World for CodecWorld {
         let types: &[Ty] = if set == "pset" { &PSET_TYPES } else { &CONSENSUS_TYPES };
         // transactions and PSETs are the rich types: half of the runs
         let spec = if p.coin() { draw_obj(p, &types[..1]) } else { draw_obj(p, types) };
+        if mode == "garbage" && spec.ty == Ty::Script && p.chance(1, 2) {
+            // a length L at a varint boundary, written in a drawn prefix width (minimal or not), followed by L bytes (or one
+            // fewer / one more): whatever is accepted must re-encode to exactly these bytes
+            let l = *p.pick(&[0usize, 1, 0xfc, 0xfd, 0xfe, 0xff, 0x100, 0xfffe, 0xffff, 0x10000, 0x10001]);
+            let mut bytes = match p.below(4) {
+                0 => medium::varint_bytes(l as u64),
+                1 => { let mut b = vec![0xfd]; b.extend((l as u16).to_le_bytes()); b }
+                2 => { let mut b = vec![0xfe]; b.extend((l as u32).to_le_bytes()); b }
+                _ => { let mut b = vec![0xff]; b.extend((l as u64).to_le_bytes()); b }
+            };
+            let body = match p.below(6) { 0 => l.saturating_sub(1), 1 => l + 1, _ => l };
+            bytes.extend(p.bytes(body));
+            return Case { obj: spec, garbage: Some(bytes), write_plan: IoPlan::perfect(), write_fault: None, read_plan: IoPlan::perfect(), read_fault: None, sweep: false, deliveries: vec![], delivery_plan: IoPlan::draw_benign(p) };
+        }
         if mode == "garbage" {
             let n = p.len_biased(400);
             let mut bytes = p.bytes(n);
